@@ -40,7 +40,7 @@ RULE = ("case = (body program, wrapper stack of depth 1..3, drive sequence of 1.
 
 PURE = ["citer", "coro_await", "am", "ami", "mon", "bmon", "masend", "ref"]
 EAGER = ["cs_await", "cs_ascoro"]
-SENDS = ["s:0", "s:0", "s:3", "s:4"]
+SENDS = ["s:0", "s:0", "s:3", "s:4", "s:0", "s:3", "s:9001", "s:9003"]
 
 
 def gen_case(rng, thorough=False):
@@ -118,6 +118,8 @@ def judge(layers, stmts, drives, loop, resolve_held=False):
         tags.add("OOBData-not-addressed-to-a-monitor")
     if any(d == "t:FE" for d in rd):
         tags.add("falsy-exception-thrown")
+    if any(d in ("s:9001", "s:9002", "s:9003") for d in rd[1:]):
+        tags.add("exception-instance-sent-as-value")
     if bad is None and info.get("held_probe_fail"):
         bad = ("a Future held by CoroStart cannot be awaited by anybody else (blocking flag left set)",
                "second awaiter is suspended on the future", info["held_probe_fail"])
